@@ -174,5 +174,8 @@ fixed("C13", "9e69195", ["c13:frames-only:%s:%s" % (n, k) for n, k in (("text-th
 fixed("C02", "aa1be85", ["c02:%s:ONESHOT:async:%s:%s" % (n, e, k) for n in ("tcp", "unix") for e in ("default", "goroutine", "pool") for k in ("callbacks-overlap", "stream-differs")],
       "EPOLLONESHOT + AsyncReadInPoller, application writes while input keeps coming (pattern echo): a Write that leaves a backlog re-arms the one-shot event (it needs the writing event) while the reading job is still running; with input pending a second reading job starts - data callbacks of one connection overlap and the stream is handed over out of order (side remark of a seeding agent, who met it in a demo)")
 
+fixed("C18", "4b8fdb3", ["crash:panic: sync: WaitGroup is reused before previous Wait has returned"],
+      "Engine.DialAsync racing Stop: the dial raises the wait-group counter from zero while Stop is already waiting on it; the runtime panics (history element dials_during_stop; the twin of the AddConn defect repaired by 54f4194)")
+
 json.dump(F, open("/verif/known_findings.json", "w"), indent=1)
 print("wrote %d entries (%d known)" % (len(F), sum(1 for f in F if f["status"] == "known")))
